@@ -431,8 +431,11 @@ func (r *transport) serveFromCache(
 ) (*http.Response, error) {
 	if noCacheQualified {
 		//Qualified no-cache: may serve from cache with fields stripped
+		// (a field the origin sent in the trailer section is a field of the
+		// stored response as well)
 		for field := range noCacheFieldsSeq {
 			stored.Data.Header.Del(field)
+			stored.Data.Trailer.Del(field)
 		}
 	}
 	internal.SetAgeHeader(stored.Data, r.clock, freshness.Age)
@@ -477,6 +480,7 @@ func (r *transport) handleStaleWhileRevalidate(
 	go r.backgroundRevalidate(withConditionalHeaders(req2, stored.Data.Header), req2, stored, urlKey, freshness, ccReq)
 	// Served without validation: fields named by a qualified no-cache must not be replayed
 	internal.StripNoCacheFields(stored.Data.Header, ccResp)
+	internal.StripNoCacheFields(stored.Data.Trailer, ccResp)
 	internal.SetAgeHeader(stored.Data, r.clock, freshness.Age)
 	internal.CacheStatusStale.ApplyTo(stored.Data.Header)
 	r.logger.LogCacheStaleRevalidate(req, urlKey, internal.MiscFunc(func() internal.Misc {
